@@ -27,6 +27,9 @@ def mpint (n : Nat) : Bytes :=
 /-- RFC 4253 §6.6 -/
 def rsaBlob (e n : Nat) : Bytes := str (strBytes "ssh-rsa") ++ mpint e ++ mpint n
 
+/-- RFC 4253 §6.6 "ssh-dss" -/
+def dsaBlob (p q g y : Nat) : Bytes := str (strBytes "ssh-dss") ++ mpint p ++ mpint q ++ mpint g ++ mpint y
+
 /-- RFC 8709 §4 -/
 def ed25519Blob (k : Bytes) : Bytes := str (strBytes "ssh-ed25519") ++ str k
 
